@@ -501,11 +501,47 @@ theorem STP_bridge_id_lens : (⟨"STP", "bridge_id", 80, 64, 1, STP_get_id STP_b
     omega
 
 
+/-! ### 802.11 sequence control / BAR control: nibble and 12-bit fields of a little-endian uint16 member -/
+
+theorem le16_set_low4_word (W v : Nat) (hW : W < 65536) (hv : v < 16) : (v ||| (W &&& 0xfff0)) % 65536 = putN 0 4 v W := by
+  rw [and_range _ 4 12 0xfff0 (by decide), or_eq_add' _ _ 4 (by omega) (by omega)]
+  arith_simp
+  omega
+theorem le16_set_hi12_word (W v : Nat) (hW : W < 65536) (hv : v < 4096) : ((v <<< 4) ||| (W &&& 0xf)) % 65536 = putN 4 12 v W := by
+  rw [and_low _ 4 0xf (by decide), Nat.shiftLeft_eq, or_eq_add _ _ 4 (by omega) (by omega)]
+  arith_simp
+  omega
+theorem getN16_lt (s X : Nat) : getN s 16 X < 65536 := getN_lt s 16 X
+
+theorem LE16_low4_lens (B s : Nat) (c f : String) (hs : s = 8 * B + 0) :
+    (⟨c, f, s, 4, 1, LE16_get_low4 ⟨B, 0, 16⟩, LE16_set_low4 ⟨B, 0, 16⟩⟩ : CustomAcc).IsLens := by
+  intro v X hv
+  simp only [Nat.mul_one, Nat.div_one, Nat.reducePow] at hv ⊢
+  subst hs
+  constructor
+  · simp only [LE16_set_low4, memSet, memGet]
+    rw [le16_set_low4_word _ _ (getN16_lt _ X) hv, putN_sub 0 4 _ 16 _ _ (by decide)]
+  · simp only [LE16_get_low4, memGet]
+    rw [and_low _ 4 0xf (by decide), ← getN_sub 0 4 (8 * B + 0) 16 X (by decide)]
+    simp only [getN_arith 0 4, Nat.pow_zero, Nat.div_one]
+
+theorem LE16_hi12_lens (B s : Nat) (c f : String) (hs : s = 8 * B + 0 + 4) :
+    (⟨c, f, s, 12, 1, LE16_get_hi12 ⟨B, 0, 16⟩, LE16_set_hi12 ⟨B, 0, 16⟩⟩ : CustomAcc).IsLens := by
+  intro v X hv
+  simp only [Nat.mul_one, Nat.div_one, Nat.reducePow] at hv ⊢
+  subst hs
+  constructor
+  · simp only [LE16_set_hi12, memSet, memGet]
+    rw [le16_set_hi12_word _ _ (getN16_lt _ X) hv, putN_sub 4 12 _ 16 _ _ (by decide)]
+  · simp only [LE16_get_hi12, memGet]
+    rw [and_low _ 12 0xfff (by decide), ← getN_sub 4 12 (8 * B + 0) 16 X (by decide)]
+    simp only [getN_arith 4 12, Nat.shiftRight_eq_div_pow]
+
 /-- every hand-written model in `Custom.table` is the lens at its declared position -/
 theorem table_sound : ∀ a ∈ table, a.IsLens := by
   intro a ha
   simp only [table, List.mem_cons, List.not_mem_nil, or_false] at ha
-  rcases ha with rfl | rfl | rfl | rfl | rfl | rfl | rfl | rfl | rfl | rfl | rfl | rfl | rfl | rfl | rfl | rfl | rfl | rfl | rfl | rfl | rfl | rfl | rfl | rfl | rfl | rfl | rfl
+  rcases ha with rfl | rfl | rfl | rfl | rfl | rfl | rfl | rfl | rfl | rfl | rfl | rfl | rfl | rfl | rfl | rfl | rfl | rfl | rfl | rfl | rfl | rfl | rfl | rfl | rfl | rfl | rfl | rfl | rfl | rfl | rfl | rfl | rfl | rfl
   · exact IP_flags_lens
   · exact IP_fragment_offset_lens
   · exact IPv6_traffic_class_lens
@@ -531,6 +567,13 @@ theorem table_sound : ∀ a ∈ table, a.IsLens := by
   · exact STP_timer_lens 29 32 "max_age" (by decide)
   · exact STP_timer_lens 31 16 "hello_time" (by decide)
   · exact STP_timer_lens 33 0 "fwd_delay" (by decide)
+  · exact LE16_low4_lens 22 176 _ _ (by decide)
+  · exact LE16_hi12_lens 22 180 _ _ (by decide)
+  · exact LE16_low4_lens 22 176 _ _ (by decide)
+  · exact LE16_hi12_lens 22 180 _ _ (by decide)
+  · exact LE16_low4_lens 16 128 _ _ (by decide)
+  · exact LE16_low4_lens 18 144 _ _ (by decide)
+  · exact LE16_hi12_lens 18 148 _ _ (by decide)
   · exact VXLAN_flags_lens
   · exact VXLAN_vni_lens
 
